@@ -95,11 +95,44 @@ Section Sound.
   Lemma paren_if_val : forall b t, ceval (paren_if b t) = ceval t.
   Proof. destruct b; reflexivity. Qed.
 
-  Lemma add_join_val : forall a t, good13 t -> ceval (add_join (Some a) t) = ceval a + ceval t.
+  Lemma graft_add_val : forall a t, wp t = true -> 12 <= level t -> ceval (graft BAdd a t) = ceval a + ceval t.
+  Proof.
+    intros a t. induction t as [n|txt bits|s|t IHt|t IHt|o t1 IHt1 t2 IHt2|nl c IHc x IHx y IHy|f t IHt|f|nl t IHt];
+      intros W L; cbn [graft]; try reflexivity.
+    apply wp_bin in W. destruct W as [W1 [W2 [L1 L2]]]. simpl in L.
+    destruct o; simpl in L; try lia; cbn [bprec N.eqb Pos.eqb ceval]; try reflexivity.
+    - rewrite (IHt1 W1) by (simpl in L1; lia). ring.
+    - rewrite (IHt1 W1) by (simpl in L1; lia). ring.
+  Qed.
+
+  Lemma graft_sub_strip_val : forall t t' a, wp t = true -> 12 <= level t -> strip_neg t = Some t' ->
+    ceval (graft BSub a t') = ceval a + ceval t.
+  Proof.
+    induction t as [n|txt bits|s|t IHt|t IHt|o t1 IHt1 t2 IHt2|nl c IHc x IHx y IHy|f t IHt|f|nl t IHt];
+      intros t' a W L H; simpl in H; try discriminate.
+    - (* CNeg *)
+      inversion H; subst. simpl in W. apply andb_true_iff in W. destruct W as [W _].
+      apply andb_true_iff in W. destruct W as [_ W]. apply N.leb_le in W. unfold PREC_UNARY in W.
+      destruct t'; cbn [graft ceval]; try ring.
+      exfalso. simpl in W. destruct o; simpl in W; lia.
+    - (* CBin *)
+      destruct (strip_neg t1) as [l'|] eqn:E; [|discriminate]. inversion H; subst.
+      pose proof W as W0. apply wp_bin in W. destruct W as [W1 [W2 [L1 L2]]]. simpl in L.
+      destruct o; simpl in L; try lia; cbn [graft bprec N.eqb Pos.eqb ceval].
+      + rewrite (IHt1 l' a W1) by (simpl in L1; try lia; reflexivity). ring.
+      + rewrite (IHt1 l' a W1) by (simpl in L1; try lia; reflexivity). ring.
+      + pose proof (strip_neg_val (CBin BMul t1 t2) (CBin BMul l' t2) W0) as Q. simpl in Q. rewrite E in Q.
+        cbn [ceval] in Q. rewrite Q; [ring | lia | reflexivity].
+      + pose proof (strip_neg_val (CBin BDiv t1 t2) (CBin BDiv l' t2) W0) as Q. simpl in Q. rewrite E in Q.
+        cbn [ceval] in Q. rewrite Q; [ring | lia | reflexivity].
+    - simpl in L. unfold PREC_COND in L. lia.
+  Qed.
+
+  Lemma add_join_val : forall a t, good12 t -> ceval (add_join (Some a) t) = ceval a + ceval t.
   Proof.
     intros a t [W L]. unfold add_join. destruct (strip_neg t) as [t'|] eqn:E.
-    - cbn [ceval]. rewrite (strip_neg_val _ _ W L E). ring.
-    - reflexivity.
+    - exact (graft_sub_strip_val _ _ a W L E).
+    - exact (graft_add_val a t W L).
   Qed.
 
   Lemma chain_mul_val : forall r f, good13 f -> Forall good13 r ->
@@ -156,12 +189,12 @@ Section Sound.
       induction l as [|[k v] r IH]; intros acc t H Hl; simpl in H.
       - destruct acc; [inversion H; subst; reflexivity | discriminate].
       - bind_ok H t0 E. destruct (Hl (k, v) (or_introl eq_refl)) as [G [S A]]. simpl in G, S, A.
-        pose proof (add_term_inv cf pr IHpr _ _ _ E G S A) as G13.
+        pose proof (add_term_inv cf pr IHpr _ _ _ E G S A) as G12t.
         rewrite (IH _ _ H) by (intros p Hp; apply Hl; right; exact Hp).
         cbn [fold_left fst snd]. f_equal.
         rewrite <- (add_term_val _ _ _ E G A).
         destruct acc as [a|]; cbn [acc_val].
-        + apply add_join_val. exact G13.
+        + apply add_join_val. exact G12t.
         + simpl. ring.
     Qed.
 
